@@ -21,8 +21,8 @@ KINDS = [cg.BASIC, cg.COMPOUND, cg.ORTH, cg.FINAL]
 LEVELS = {
     'quick': [
         {'name': 'L1-N3-M1-K2', 'N': 3, 'M': 1, 'K': 2, 'cstates': 'all', 'budget_s': 60},
-        {'name': 'L2-N3-M2-K1', 'N': 3, 'M': 2, 'K': 1, 'cstates': 'some', 'budget_s': 90},
-        {'name': 'L3-N4-M1-K1', 'N': 4, 'M': 1, 'K': 1, 'cstates': 'some', 'budget_s': 90},
+        {'name': 'L2-N3-M2-K1-bco', 'N': 3, 'M': 2, 'K': 1, 'cstates': 'few', 'kinds': 'bco', 'budget_s': 90},
+        {'name': 'L3-N4-M1-K1-bco', 'N': 4, 'M': 1, 'K': 1, 'cstates': 'some', 'kinds': 'bco', 'budget_s': 90},
     ],
     'thorough': [
         {'name': 'L1-N3-M2-K2', 'N': 3, 'M': 2, 'K': 2, 'cstates': 'all', 'budget_s': 900},
@@ -45,7 +45,8 @@ NC = 2   # conditions of each kind on every state and transition
 
 
 def shards(level):
-    return cg.split_shards(cg.skeletons(level['N'], KINDS), level['M'], nevents=1)
+    kinds = KINDS[:3] if level.get('kinds') == 'bco' else KINDS
+    return cg.split_shards(cg.skeletons(level['N'], kinds), level['M'], nevents=1)
 
 
 def expand(job, level):
@@ -85,6 +86,8 @@ def build(g, chart, level):
         st = sc.state_for(cm.names[i])
         if level.get('cstates') == 'some' and i not in (0, 1, cm.n - 1):
             continue
+        if level.get('cstates') == 'few' and i not in (0, cm.n - 1):
+            continue
         for j in range(NC):
             st.preconditions.append(cond('s', i, 'pre', j))
             st.postconditions.append(cond('s', i, 'post', j))
@@ -103,8 +106,8 @@ def harness(g, chart, level, canary=False):
                                    NonDeterminismError, ConflictingTransitionsError)
     klass = {'pre': PreconditionError, 'post': PostconditionError, 'inv': InvariantError}
     sc, trs, cm = build(g, chart, level)
-    some = level.get('cstates') == 'some'
-    has_c = lambda i: (not some) or i in (0, 1, cm.n - 1)   # noqa: E731
+    cmode = level.get('cstates')
+    has_c = lambda i: (i in (0, 1, cm.n - 1)) if cmode == 'some' else (i in (0, cm.n - 1)) if cmode == 'few' else True   # noqa: E731
     v0 = g.int('v0')
     occ = [0]
     seen = []            # (kind, id, which, j, v, old) as observed by the checked run
